@@ -1233,6 +1233,18 @@ impl<'a> Trial<'a> {
                             }
                         },
                         (Some(p0), Some(p)) if *p0 != p => ctx.probe("live_recover_from_wal_reset_phase_changed_in_memory"),
+                        (Some(p0), None) => {
+                            // the recovery call made the running coordinator forget a transaction
+                            // it was tracking: "forgotten without leaving locks behind"
+                            ctx.probe("live_recover_from_wal_forgot_tracked_tx");
+                            self.check_no_locks(
+                                c,
+                                t,
+                                "forgotten-tx-left-locks",
+                                &format!("s{i}: recover_from_wal on the running coordinator dropped t{t} (it was {} in memory)", phase_name(*p0)),
+                            )?;
+                        },
+                        (Some(_), Some(_)) if c.get(id).is_some_and(|x| x.phase == TxPhase::Preparing) => ctx.probe("live_recover_from_wal_beside_tx_collecting_votes"),
                         _ => {},
                     }
                 }
